@@ -170,5 +170,130 @@ func (fr *Frame) bufWrite(p *Ptr, v *Term, in *ssa.Call) {
 }
 
 func (fr *Frame) stdlibCall2(in *ssa.Call, callee *ssa.Function, name string, args []*GVal) *GVal {
+	ex := fr.ex
+	p := ex.p
+	w := p.w
+	use := func(s string) { p.assumptions["stdlib: "+s] = true }
+	rvS := w.rvSort()
+	rvVal := func(r *Term) *Term { return vsel("rv_val", SVal, "mkRV", 0, r) }
+	rvValid := func(r *Term) *Term { return vsel("rv_valid", SBool, "mkRV", 1, r) }
+	rvRO := func(r *Term) *Term { return vsel("rv_ro", SBool, "mkRV", 2, r) }
+	kind := func(r *Term) *Term { return Ite(rvValid(r), App("kindOf", SInt, rvVal(r)), IntLit(0)) }
+	kindIn := func(r *Term, ks ...int64) *Term {
+		var ds []*Term
+		for _, k := range ks {
+			ds = append(ds, Eq(kind(r), IntLit(k)))
+		}
+		return Or(ds...)
+	}
+	goFn := func(n string, args []*Sort, ret *Sort) { p.DeclareFun(n, args, ret) }
+	switch name {
+	case "encoding/json.Unmarshal":
+		use("json.Unmarshal(data, &x): never panics; err == nil implies x == jsonDecode(data), a JSON value (specJSONVal) resp. a string; its error is not a SyntaxError of this package")
+		data := fr.term(args[0])
+		tgt := args[1]
+		okc := p.FreshConst("unmarshal_ok", SBool)
+		goFn("jsonOK", []*Sort{data.S}, SBool)
+		ex.addFact(Eq(okc, App("jsonOK", SBool, data)))
+		e := Ite(okc, mk("ErrNil", SErr), App("ErrOther", SErr, p.FreshConst("errid", SInt)))
+		if tgt.Ptr != nil && tgt.Ptr.Cell != nil && len(tgt.Ptr.Path) == 0 {
+			c := tgt.Ptr.Cell
+			switch c.sort {
+			case SStr:
+				goFn("jsonDecodeStr", []*Sort{data.S}, SStr)
+				nv := App("jsonDecodeStr", SStr, data)
+				ex.addFact(ex.typeFacts(nv, types.Typ[types.String]))
+				ex.st.cells[c] = Ite(okc, nv, p.FreshConst("partial", SStr))
+			case SVal:
+				goFn("jsonDecode", []*Sort{data.S}, SVal)
+				nv := App("jsonDecode", SVal, data)
+				if _, ok := p.specs["specJSONVal"]; ok {
+					ex.addFact(Implies(okc, App("specJSONVal", SBool, nv)))
+				}
+				ex.st.cells[c] = Ite(okc, nv, p.FreshConst("partial", SVal))
+			default:
+				ex.unsupp("json.Unmarshal into %s", c.sort.S)
+			}
+		} else {
+			ex.unsupp("json.Unmarshal target is not a local variable")
+		}
+		return &GVal{T: e, Typ: in.Type()}
+	case "reflect.ValueOf":
+		use("reflect.ValueOf(i) wraps the dynamic value; ValueOf(nil) is the invalid Value")
+		v := fr.term(args[0])
+		return &GVal{T: App("mkRV", rvS, v, Not(VIs("VNil", v)), TFalse), Typ: in.Type()}
+	case "(reflect.Value).Kind":
+		use("reflect: Kind() is determined by the dynamic type (kindOf), Invalid for the zero Value")
+		return &GVal{T: kind(fr.term(args[0])), Typ: in.Type()}
+	case "(reflect.Value).IsValid":
+		return &GVal{T: rvValid(fr.term(args[0])), Typ: in.Type()}
+	case "(reflect.Value).Len":
+		use("reflect: Len() panics unless kind is Array, Chan, Map, Slice or String; equals the length of the wrapped value")
+		r := fr.term(args[0])
+		fr.oblige("safe", "reflect.Len-kind", []string{"C05", "C18"}, kindIn(r, 17, 18, 21, 23, 24), in.Pos())
+		v := rvVal(r)
+		goFn("goLen", []*Sort{SVal}, SInt)
+		gl := App("goLen", SInt, v)
+		ex.addFact(And(Le(IntLit(0), gl), Le(gl, maxLen)))
+		res := Ite(VIs("VArr", v), VLenOf(v), Ite(VIs("VObj", v), VSizeOf(v), Ite(VIs("VStr", v), App("gs.len", SInt, VStrOf(v)),
+			Ite(VIs("VIntPtrs", v), App("vpn", SInt, v), gl))))
+		ex.addFact(Implies(fr.cur, And(Le(IntLit(0), res), Le(res, maxLen))))
+		return &GVal{T: res, Typ: in.Type()}
+	case "(reflect.Value).IsNil":
+		use("reflect: IsNil() panics unless kind is Chan, Func, Interface, Map, Ptr, Slice or UnsafePointer")
+		r := fr.term(args[0])
+		fr.oblige("safe", "reflect.IsNil-kind", []string{"C05", "C18"}, kindIn(r, 18, 19, 20, 21, 22, 23, 26), in.Pos())
+		v := rvVal(r)
+		goFn("goIsNil", []*Sort{SVal}, SBool)
+		res := Ite(VIs("VArr", v), VArrNil(v), Ite(VIs("VObj", v), VObjNil(v), Ite(VIs("VIntr", v), Eq(App("vintr", SInt, v), IntLit(0)), App("goIsNil", SBool, v))))
+		return &GVal{T: res, Typ: in.Type()}
+	case "(reflect.Value).Elem":
+		use("reflect: Elem() panics unless kind is Interface or Ptr; yields the pointee (invalid Value for a nil pointer)")
+		r := fr.term(args[0])
+		fr.oblige("safe", "reflect.Elem-kind", []string{"C05", "C18"}, kindIn(r, 20, 22), in.Pos())
+		v := rvVal(r)
+		goFn("goElem", []*Sort{SVal}, SVal)
+		goFn("goIsNil", []*Sort{SVal}, SBool)
+		return &GVal{T: App("mkRV", rvS, App("goElem", SVal, v), Not(App("goIsNil", SBool, v)), rvRO(r)), Typ: in.Type()}
+	case "(reflect.Value).Interface":
+		use("reflect: Interface() panics for the invalid Value and for values obtained through unexported struct fields")
+		r := fr.term(args[0])
+		fr.oblige("safe", "reflect.Interface-valid-and-exported", []string{"C05", "C18"}, And(rvValid(r), Not(rvRO(r))), in.Pos())
+		return &GVal{T: rvVal(r), Typ: in.Type()}
+	case "(reflect.Value).Index":
+		use("reflect: Index(i) panics unless kind is Array, Slice or String and 0 <= i < Len()")
+		r := fr.term(args[0])
+		i := fr.term(args[1])
+		v := rvVal(r)
+		goFn("goLen", []*Sort{SVal}, SInt)
+		goFn("goIndex", []*Sort{SVal, SInt}, SVal)
+		ln := Ite(VIs("VArr", v), VLenOf(v), Ite(VIs("VStr", v), App("gs.len", SInt, VStrOf(v)), Ite(VIs("VIntPtrs", v), App("vpn", SInt, v), App("goLen", SInt, v))))
+		fr.oblige("safe", "reflect.Index-kind-and-range", []string{"C05", "C18"}, And(kindIn(r, 17, 23, 24), Le(IntLit(0), i), Lt(i, ln)), in.Pos())
+		el := Ite(VIs("VArr", v), Select(VArrOf(v), i), App("goIndex", SVal, v, i))
+		return &GVal{T: App("mkRV", rvS, el, TTrue, rvRO(r)), Typ: in.Type()}
+	case "(reflect.Value).FieldByName":
+		use("reflect: FieldByName panics unless kind is Struct; returns the invalid Value when there is no such field; unexported fields are read-only")
+		r := fr.term(args[0])
+		n := fr.term(args[1])
+		fr.oblige("safe", "reflect.FieldByName-kind", []string{"C05", "C18"}, kindIn(r, 25), in.Pos())
+		v := rvVal(r)
+		goFn("goField", []*Sort{SVal, SStr}, SVal)
+		goFn("goHasField", []*Sort{SVal, SStr}, SBool)
+		goFn("goFieldUnexported", []*Sort{SVal, SStr}, SBool)
+		return &GVal{T: App("mkRV", rvS, App("goField", SVal, v, n), App("goHasField", SBool, v, n), Or(rvRO(r), App("goFieldUnexported", SBool, v, n))), Typ: in.Type()}
+	case "reflect.TypeOf":
+		use("reflect.TypeOf(i) is nil for a nil interface; otherwise a Type whose Kind() is kindOf(i) (only Kind() is used)")
+		v := fr.term(args[0])
+		return &GVal{T: Ite(VIs("VNil", v), VNil, App("VInt", SVal, App("kindOf", SInt, v))), Typ: in.Type()}
+	case "reflect.DeepEqual":
+		use("reflect.DeepEqual on decoded-JSON values is specDeepEq (same constructor; numbers by ==; arrays element-wise incl. nil-ness; objects key-wise)")
+		a, b := fr.term(args[0]), fr.term(args[1])
+		if sd, ok := p.specs["specDeepEq"]; ok {
+			p.ensureSpec("specDeepEq")
+			return &GVal{T: App("specDeepEq", sd.Ret, a, b), Typ: in.Type()}
+		}
+		goFn("deepEq", []*Sort{SVal, SVal}, SBool)
+		return &GVal{T: App("deepEq", SBool, a, b), Typ: in.Type()}
+	}
 	return nil
 }
